@@ -84,7 +84,8 @@ RERUNS = {"harness_reruns_in_isolation": 0, "coq_reruns_in_isolation": 0, "race_
 
 def run_harness(seed, rounds, permille, slow=1):
     """one run of the stress client.  A wall-clock expiry (rc 124) or the client's own no-progress watchdog (rc 3) is not a
-    verdict: the same run is repeated ONCE, alone, with every bound x10 (C19_SLOW); only what that run shows is reported."""
+    verdict: the same run is repeated ONCE, alone, with every bound x3 (C19_SLOW; x10 made a deterministic hang cost the check
+    its verdict: 50 minutes for one re-run); only what that run shows is reported."""
     exe = build()
     env = dict(os.environ)
     if slow > 1:
@@ -92,21 +93,21 @@ def run_harness(seed, rounds, permille, slow=1):
     r = common.run([exe, str(seed), str(rounds), str(permille)], timeout=300 * slow, env=env)
     if r.returncode in (3, 124) and slow == 1:
         RERUNS["harness_reruns_in_isolation"] += 1
-        return run_harness(seed, rounds, permille, slow=10)
+        return run_harness(seed, rounds, permille, slow=3)
     return r.returncode, r.stdout, r.stderr
 
 
 def run_race(iters, slow=1):
     """regression for the finding fixed in /repo (dbpd_queue published before the queue was retained): iteration-bounded,
     its watchdog is progress-based (rc 3 = no hand-off completed for 60 s); rc 124 / 3 are confirmed by one isolated re-run
-    with a 10x limit before they count"""
+    with a 3x limit before they count"""
     exe, msg = common.build_harness("c19_qref_race", ["c19_qref_race.c"], whitebox=False)
     if exe is None:
         raise RuntimeError("harness build failed: " + msg)
     r = common.run([exe, str(iters)], timeout=600 * slow)
     if r.returncode in (3, 124) and slow == 1:
         RERUNS["race_reruns_in_isolation"] += 1
-        return run_race(iters, slow=10)
+        return run_race(iters, slow=3)
     return r.returncode, r.stdout[-300:], r.stderr[-300:]
 
 
@@ -670,7 +671,7 @@ def negative_tests():
 
 def one_run(seed, rounds, permille, label):
     """one stress run, judged.  returns (failures, traces, stats, round info, cut traces, mismatches).
-    Verdicts that rest on a bounded wait (LOAD_SENSITIVE) are confirmed by ONE isolated re-run with every bound x10."""
+    Verdicts that rest on a bounded wait (LOAD_SENSITIVE) are confirmed by ONE isolated re-run with every bound x3."""
     mism = []
     rc, text, err = run_harness(seed, rounds, permille)
 
@@ -695,7 +696,7 @@ def one_run(seed, rounds, permille, label):
     f, tr, st, rds, cut = judge(rc, text, err)
     if rc == 0 and any(code_of(x) in LOAD_SENSITIVE for x in f):
         RERUNS["harness_reruns_in_isolation"] += 1
-        rc2, text2, err2 = run_harness(seed, rounds, permille, slow=10)
+        rc2, text2, err2 = run_harness(seed, rounds, permille, slow=3)
         f2, tr2, st2, rds2, cut2 = judge(rc2, text2, err2)
         if any(code_of(x) in LOAD_SENSITIVE for x in f2):
             f, tr, st, rds, cut = f2, tr2, st2, rds2, cut2        # confirmed: report what the isolated run shows
